@@ -504,7 +504,10 @@ def datetime_eq_datetime(dt1, dt2):
         yaql> datetime(2011, 11, 11) = datetime(2011, 11, 11)
         true
     """
-    return dt1 == dt2
+    # not dt1 == dt2: python never calls a local time that occurs twice in
+    # its zone (end of daylight saving) equal to a value of another zone,
+    # although <= and >= both hold for the same moment
+    return not (dt1 < dt2 or dt1 > dt2)
 
 
 @specs.name('*not_equal')
@@ -528,7 +531,7 @@ def datetime_neq_datetime(dt1, dt2):
         yaql> datetime(2011, 11, 11) != datetime(2011, 11, 11)
         false
     """
-    return dt1 != dt2
+    return dt1 < dt2 or dt1 > dt2
 
 
 @specs.name('#operator_>')
